@@ -84,6 +84,54 @@ def normalize(raw):
         others = [x for x in missing if x.rsplit("::", 1)[-1] == last and _module(x) == _module(m)]
         if len(cands) == 1 and len(others) == 1:
             fn_map[cands[0]] = m
+    # same name, same module, signature changed (a by-value generic became `&mut Concrete`, a parameter pair became
+    # a struct): still the same function if it is the only one of that name missing and the only one appearing
+    for m in missing:
+        if m in fn_map.values():
+            continue
+        last = m.rsplit("::", 1)[-1]
+        cands = [n for n in new if n not in fn_map and n.rsplit("::", 1)[-1] == last and _module(n) == _module(m)]
+        others = [x for x in missing if x not in fn_map.values() and x.rsplit("::", 1)[-1] == last and _module(x) == _module(m)]
+        if len(cands) == 1 and len(others) == 1:
+            fn_map[cands[0]] = m
+    # several functions of one parent renamed at once with unchanged arity: pair them by the words their names share
+    # (end_contains -> is_within_end, start_contains -> is_within_start)
+    left = [m for m in missing if m not in fn_map.values()]
+    free = [n for n in new if n not in fn_map]
+    if left and free:
+        def toks(p):
+            return set(p.rsplit("::", 1)[-1].lower().split("_"))
+
+        def arity(sig):
+            inner = sig.split("fn(", 1)[1] if "fn(" in sig else ""
+            depth, n, seen = 0, 0, False
+            for ch in inner:
+                if ch in "(<[":
+                    depth += 1
+                elif ch in ")>]":
+                    if depth == 0:
+                        break
+                    depth -= 1
+                elif ch == "," and depth == 0:
+                    n += 1
+                if not ch.isspace():
+                    seen = True
+            return n + 1 if seen and inner and inner[0] != ")" else 0
+        for m in left:
+            scored = []
+            for n in free:
+                if _parent(n) != _parent(m) or arity(cur["fns"][n]["sig"]) != arity(pin["fns"][m]["sig"]):
+                    continue
+                common = toks(n) & toks(m)
+                if common:
+                    scored.append((len(common), n))
+            scored.sort(reverse=True)
+            if scored and (len(scored) == 1 or scored[0][0] > scored[1][0]):
+                n = scored[0][1]
+                # the best partner of n among the missing ones must be m as well
+                back = sorted(((len(toks(n) & toks(x)), x) for x in left if _parent(x) == _parent(n)), reverse=True)
+                if back and back[0][1] == m and (len(back) == 1 or back[0][0] > back[1][0]) and n not in fn_map:
+                    fn_map[n] = m
     # the impl block of a function changed its generic parameters (`impl<U> Error<U>` -> `impl Error<Infallible>`):
     # same path once the `::<..>` segments are erased
     def _erase(p):
